@@ -13,6 +13,10 @@ CHECKS = {
                 technique="explicit-state BFS over edit histories; before/after public snapshot comparison on every raising transition",
                 text="Same exploration as C01; for every transition whose public call raises, the complete public snapshot of every object that existed before the call is compared with the snapshot after it. Multi-element arguments carry the rejected element at every position.",
                 note="Trusts the snapshot function to cover every public accessor (listed in DESIGN 2/E2). Same bounds as C01."),
+    "C09": dict(level="model_checking", engine="E4-sched", design="4/C09",
+                technique="stateless exploration of all thread schedules of the real writer/budget code under a cooperative scheduler, iterative deviation bounding (delay bound and CHESS preemption bound)",
+                text="The real _write_external_tensors/_ExternalDataWriter/_ByteBudget code runs on real threads under a baton scheduler that owns every lock/condition/future/executor operation (module globals threading/concurrent rebound to shims) plus harness points inside tensor materialisation and callbacks. Every schedule within the deviation bound is executed to completion per configuration (oversized tensors, shared tensor object, sharding with serial and parallel inner writers, failing tensor/callback) and checked for termination, byte-identical files, exactly-once non-overlapping callbacks, one-at-a-time evaluation of a shared tensor, the memory bound, and clean failure propagation.",
+                note="Atomicity between scheduling points is assumed (GIL granularity); the executor shim models stock ThreadPoolExecutor semantics. Bounds per configuration are listed in the evidence."),
 }
 
 NOT_YET = {}
@@ -52,6 +56,8 @@ def main():
         "engines": [
             {"name": "E1-bfs", "path": "mc/explore.py", "serves_properties": ["C01", "C06"],
              "kind_free_text": "explicit-state BFS over the real transition function; states are histories replayed on fresh real objects; dedup on canonical public snapshot"},
+            {"name": "E4-sched", "path": "mc/sched.py", "serves_properties": ["C09"],
+             "kind_free_text": "cooperative baton scheduler for real threads + stateless DFS with delay/preemption bounding"},
         ],
         "checks": checks,
         "not_applicable": na,
